@@ -1,6 +1,6 @@
 (* C11 — property theorems only: each restates the full statement and is closed by the lemma proved in Proofs/. *)
 From Coq Require Import ZArith List Bool.
-From NPS Require Import ListAux PySlice NumpySem Scatter BuildIdx XorBroadcast View Index Assign Reduce Scan RaOps Heap Hash HashRun BitArr RLE RLEOps RLE2d DataClass RowsSpec AssignSpec MapSpec Denote HashInit HashSet HashProof HashEq HashItems.
+From NPS Require Import ListAux PySlice NumpySem Scatter BuildIdx XorBroadcast View Index Assign Reduce Scan RaOps Heap Hash HashRun BitArr RLE RLEOps RLE2d DataClass RowsSpec AssignSpec MapSpec Denote HashInit HashSet HashProof HashEq HashItems CounterProof HashRunProof.
 Import ListNotations.
 Open Scope Z_scope.
 
@@ -62,3 +62,23 @@ Theorem C11_items_correct :
        (forall (k : Z) (v : V), In (k, v) (items V dv t) <-> aget V d k = Some v).
 Proof. exact items_correct. Qed.
 Print Assumptions C11_items_correct.
+
+Theorem C11_hash_run_refines :
+  forall (ops : list hop) (t : table Z) (d : assoc Z),
+       InvZ t d -> NoDup (map fst d) -> Forall2 out_equiv (hrun t ops) (srun d ops).
+Proof. exact hash_run_refines. Qed.
+Print Assumptions C11_hash_run_refines.
+
+Theorem C11_hash_model_refines_spec :
+  forall (keys vals : list Z) (scalar m : option Z) (ops : list hop),
+       NoDup keys ->
+       (scalar = None -> length keys = length vals) ->
+       match hash_model keys vals scalar m ops with
+       | Ok outs => Forall2 out_equiv outs (hash_spec keys vals scalar ops)
+       | Refused => match m with
+                    | Some x => x
+                    | None => default_mod (zlen keys)
+                    end <= 0
+       end.
+Proof. exact hash_model_refines_spec. Qed.
+Print Assumptions C11_hash_model_refines_spec.
